@@ -41,6 +41,12 @@ def _cases(draw):
     prof = dict(gen.PROFILES["text"], p_multilang=0.5, p_custom_bind=0.4, p_custom_instance=0.4, p_custom_body=0.4, p_appearance=0.0,
                 p_default=0.0, p_entities=0, p_external=0, p_choice_label_ref=0.15, p_or_other=0.05, p_table_list=0.05, p_search=0.1)
     g = gen.G(draw, prof)
+    if g.p("_", 0.05):
+        # the legacy loop: one copy of the questions per choice, %(label)s / %(name)s in their texts replaced by the choice's label / name.
+        # The label is data there too, whatever characters it has.
+        labels = [" ".join((g.adv(allow_ws_ctl=False) + g.pick(["", "", " C:\\temp\\new", " AC\\DC", " \\1", " 100%", " %(x)s", " \\g<0>"])).split()) for _ in range(g.integer(1, 3))]
+        return {"loop": {"labels": labels, "tmpl": g.pick(["Free in %(label)s? 100% %(name)s", "%(label)s", "a %(label)s b %(label)s", "%(name)s: %(label)s %"]),
+                         "hint": g.pick([None, "h %(label)s"])}}
     form = gen.build_form(draw, prof, g=g)
     for n, _ in model.walk(form["nodes"]):
         if n["k"] != "q":
@@ -121,7 +127,59 @@ def attr_norm(s):
     return s
 
 
+def evaluate_loop(case) -> Outcome:
+    out = Outcome()
+    lp = case["loop"]
+    out.label("loop")
+    q_ = {"type": "text", "name": "q", "label": lp["tmpl"]}
+    if lp.get("hint"):
+        q_["hint"] = lp["hint"]
+
+    def wb(labels):
+        return {"survey": [{"type": "begin loop over l", "name": "lp", "label": "Loop"}, q_, {"type": "end loop"}],
+                "choices": [{"list_name": "l", "name": f"c{i}", "label": lab} for i, lab in enumerate(labels)]}
+    status, res = common.run_workbook(wb(lp["labels"]))
+    if status == "crash":
+        out.label("outcome:crash:" + crash_sig(res))
+        return out
+    if status == "rejected":
+        out.label("outcome:rejected:" + common.err_class(res))
+        if not any(common.XML_ILLEGAL_RE.search(x) for x in lp["labels"]):
+            s2, _ = common.run_workbook(wb(["x"] * len(lp["labels"])))
+            out.checked("C06.accepts-any-text")
+            if s2 == "ok":
+                out.fail("C06.accepts-any-text", "loop:" + common.err_class(res)[:40], f"refused because of a choice label (the same loop with benign labels converts): {res}")
+        return out
+    try:
+        v = xform.XFormView(res.xform)
+    except xform.IllFormed as e:
+        out.checked("C06.markup")
+        out.fail("C06.markup", "ill-formed", f"user text broke the document: {e}")
+        return out
+    out.nontrivial = True
+    for i, lab in enumerate(lp["labels"]):
+        want_lab = common.smart(lab)
+        for el in v.body.iter():
+            if isinstance(el.tag, str) and el.get("ref") == f"/data/lp/c{i}/q":
+                for tag, tmpl in (("label", lp["tmpl"]), ("hint", lp.get("hint"))):
+                    if tmpl is None:
+                        continue
+                    out.checked("C06.roundtrip")
+                    got = [ch for ch in xform.elems(el) if xform.local(ch) == tag]
+                    txt = "".join(got[0].itertext()) if got else None
+                    want = common.smart(tmpl).replace("%(label)s", want_lab).replace("%(name)s", f"c{i}")
+                    if txt != want:
+                        out.fail("C06.roundtrip", "loop:" + tag, f"looped {tag} for the choice labelled {lab!r}: {txt!r}, expected {want!r}")
+                break
+        else:
+            out.checked("C06.roundtrip")
+            out.fail("C06.roundtrip", "loop:missing-copy", f"no copy of the looped question for choice c{i}")
+    return out
+
+
 def evaluate(case) -> Outcome:
+    if "loop" in case:
+        return evaluate_loop(case)
     raw_mode = case["form"].get("settings", {}).get("clean_text_values") in expect.NO
     common.CLEAN[0] = not raw_mode
     try:
